@@ -17,7 +17,7 @@
      * every conjunct can fail (witness spaces), and the hypotheses are satisfiable. *)
 From Coq Require Import String NArith List Bool.
 From Typify Require Import Base.Json IR.TypeIR Algo.Heck Algo.HasImpl Algo.RustStatic Proofs.RustStaticProofs.
-From Typify Require Algo.Sanitize Algo.Cycles Algo.Defaults Algo.Value Algo.Emit Algo.Space.
+From Typify Require Algo.Sanitize Algo.Cycles Algo.Defaults Algo.Value Algo.Emit Algo.Space Algo.SettingsModel.
 From Typify Require Proofs.SanitizeProofs Proofs.CyclesProofs Proofs.CyclesSpecProofs Proofs.SpaceProofs.
 From Typify Require Props.C06 Props.C07 Props.C08 Props.C16 Props.C19.
 Import ListNotations.
@@ -215,6 +215,21 @@ Theorem C01_serde_default_sound : forall T, serde_default_ok T = true ->
   forall d, In d (named_dets T) -> forall np, In np (props_of_det d) -> forall p, In p (snd np) ->
   p_state p = POptional -> implements current T (fuel_of T) (p_ty p) TDefault = true.
 Proof. exact serde_default_sound. Qed.
+
+(* `skip_serializing_if = "P::f"` names a function of the field's rendered type *)
+Theorem C01_skip_path_sound : forall T, skip_path_ok T = true ->
+  forall d, In d (named_dets T) -> forall np, In np (props_of_det d) -> forall p, In p (snd np) ->
+  skip_path_prop_ok T p = true.
+Proof. exact skip_path_sound. Qed.
+
+(* the two sites that decide about `::serde_json::Map` (structs.rs generate_serde_attr for the path,
+   type_entry.rs type_ident for the type; C14's models of both) agree on EVERY optional map member *)
+Theorem C01_skip_path_map_coherent : forall T p k v ty,
+  get_det T (p_ty p) = Some (DMap k v) ->
+  SettingsModel.type_ident T (fuel_of T) (p_ty p) = Some ty ->
+  ~ In 60 (SettingsModel.map_path T) ->
+  skip_path_prop_ok T p = true.
+Proof. exact skip_path_map_coherent. Qed.
 
 (* from C19: every derive typify adds by itself is satisfiable for that entry *)
 Theorem C01_derive_bounds : forall T i e x fuel,
